@@ -174,7 +174,8 @@ def evaluate(c):
     # (and then in the zenith start only): three of its rows against the radiation sum
     # ... and a cut through the zenith (negative zenith angles) / a full turn in zenith (free space)
     zcut = (-75., 15., 11) if ground else (-90., 30., 12)
-    for zen2, azi2, what in ((zen, (azi[0] + 90., azi[1], azi[2]), 'azimuth'), ((zen[0] + 7., zen[1], zen[2] - 1), azi, 'zenith'), (zcut, azi, 'zenith-cut')):
+    for zen2, azi2, what in ((zen, (azi[0] + 90., azi[1], azi[2]), 'azimuth'), ((zen[0] + 7., zen[1], zen[2] - 1), azi, 'zenith'), (zcut, azi, 'zenith-cut'),
+                             (zen, (3., 36., 10), 'azimuth-circle'), (zen, (-170., -30., 12), 'azimuth-circle-back')):     # |step| x count = 360
         et, ep, gain = obs.far(m, zen2, azi2)
         ntr += 1
         et, ep = np.array(et), np.array(ep)
